@@ -117,6 +117,7 @@ fn execute(h: &NetHistory) -> Recorded {
     for (stepnr, group) in &h.steps {
         let mut sum_w: Vec<tensor::Tensor> = Vec::new();
         let mut sum_b: Vec<Option<tensor::Tensor>> = Vec::new();
+        set_phase("gradients");
         for i in group {
             let (pre, post, max, fbs) = net.forward(&xs[*i]);
             let (_, gradient) = objective.loss(post.last().unwrap(), &ys[*i]);
@@ -141,6 +142,7 @@ fn execute(h: &NetHistory) -> Recorded {
             layer_grads(layer, &sum_w[i], sum_b[i].as_ref(), &mut g);
         }
         rec.grads.push(g);
+        set_phase("update");
         net.verif_update(*stepnr, sum_w, sum_b);
         rec.params.push(parameters(&net));
     }
@@ -172,7 +174,26 @@ pub fn check(opt: &OptCfg, h: &NetHistory, stats: &mut Stats) -> Outcome {
     stats.operations += h.steps.len() as u64;
     let rec = match rec {
         Ok(r) => r,
-        Err(e) => return Outcome::Degenerate(format!("network history panics: {}", panic_class(&e))),
+        Err(e) => {
+            // forward / backward panics are the library's own shape limits (not C03's
+            // business); a panic inside the optimizer step of a network whose gradients were
+            // computed fine is one, unless it is a documented unsupported coupling
+            if phase() == "build:optimizer" && !documented_unsupported(&e) {
+                return Outcome::Violation(Violation {
+                    class: "set_optimizer_panics".into(),
+                    detail: format!("the network was built, but attaching the optimizer (state allocation per layer / filter / bias) panics: {}", panic_class(&e)),
+                    signature: json!({ "optimizer": opt.kind(), "level": "network" }),
+                });
+            }
+            if phase() == "update" && !documented_unsupported(&e) {
+                return Outcome::Violation(Violation {
+                    class: "network_update_panics".into(),
+                    detail: format!("gradients were computed, but the optimizer step through Network::update panics: {}", panic_class(&e)),
+                    signature: json!({ "optimizer": opt.kind(), "level": "network" }),
+                });
+            }
+            return Outcome::Degenerate(format!("network history panics in {}: {}", phase(), panic_class(&e)));
+        }
     };
     let sub = substituted(opt);
     let sig = json!({ "optimizer": opt.kind(), "level": "network" });
